@@ -23,7 +23,7 @@ LITS = ["-", ":", " ", "T", "/", ".", "at ", "day=", "", "", ""]
 
 
 def generate(rng, tier):
-    n = 3000 if tier == "quick" else 60000
+    n = 10000 if tier == "quick" else 150000
     cases = []
     for i in range(n):
         md = MODES[i % 4]
